@@ -16,6 +16,16 @@ CLAIMS = {
         text="Generated Packet/Stat values (extreme ints, unknown enum values, nil/empty data, binary xattrs, 40 KB strings, invalid UTF-8) are encoded and decoded with both codecs in both directions and compared field by field; packet sequences incl. empty and >32 KiB packets are written through util.NewProtoStream and read back under drawn fragmentations (1-byte reads to whole-stream), compared only after the stream is drained so buffer aliasing shows; arbitrary, mutated and hostile byte strings must decode or fail without panic within an allocation bound. Thorough adds three coverage-guided fuzz campaigns. Sampled, no proof.",
         note="Trusts google.golang.org/protobuf as the generic runtime; allocation measured via runtime.MemStats deltas. Values with non-UTF-8 strings are a listed known finding for the cross-codec clause only (VT-only clauses still checked).",
         ref="4 C20"),
+    "C09": dict(
+        technique="rapid-generated on-disk trees, differential against an independent lstat/readlink/listxattr snapshot sorted by component order",
+        text="Thousands of generated trees (all entry types incl. sockets, hard-link groups of regular and special files, 255-byte/invalid-UTF-8/glob-character names, names built so bytewise and component order differ, xattrs in three namespaces) are materialised on tmpfs and walked through Walk, WalkDir, NewFS.Walk (root and sub-target) and SubDirFS composites; the reported sequence and every stat field are compared both ways with the harness's own snapshot. Sampled, no proof.",
+        note="Trusts the kernel's lstat/readlink/xattr syscalls and harness.CmpComponents. tmpfs only.",
+        ref="4 C09"),
+    "C10": dict(
+        technique="rapid-generated trees x pattern grammars x map tables, differential against a naive unpruned reference filter; known dependency divergence classified by a chain model",
+        text="The real filtered walk (pruning, incremental parent results, lazy ancestors, map handling) is compared as a sequence of (path, stat) with a naive evaluation over the complete snapshot listing that uses a fresh patternmatcher per list and no pruning. Mismatches that the unpruned MatchesUsingParentResults chain model reproduces exactly are the listed known finding; everything else is a violation. Sampled, no proof.",
+        note="Trusts moby/patternmatcher.MatchesOrParentMatches as the meaning of a pattern list. Map-call order on lazily emitted ancestors that return SkipDir is treated as unspecified (structural clauses only there).",
+        ref="4 C10"),
 }
 
 NOT_YET = "check not built yet in this round (planned, see DESIGN.md section 9)"
